@@ -1863,6 +1863,11 @@ def r_surface(ctx: Ctx, rule: str):
         dd = dict_defaults(ctx, m)
         ok = "name" in dd and ctx.vals.canon_call(dd["name"].node.func, dd["name"].node.env, dd["name"].value).replace(" ", "") == attr
         rep.ob(rule, f"{nm} names the command after the member with underscores as dashes", ok, func=m, construct="command name")
+        # "-h/--help describing it": the command's own help page carries a description, and the listing a help line (both default to
+        # the member's documentation unless the caller supplied them)
+        for key_ in ("help", "description"):
+            rep.ob(rule, f"{nm} gives the command a default `{key_}` text", key_ in dd, func=m, construct=f"default for {key_!r}",
+                   detail="" if key_ in dd else f"no default for {key_!r}: `<command> -h` / the command list would say nothing about what the command does")
     # help stays enabled
     bad = []
     for fn in ctx.prog.every_function():
@@ -2079,3 +2084,73 @@ def r_wire_codec(ctx: Ctx, rule: str) -> None:
         err_ok = err is None or (isinstance(err, ast.Constant) and err.value == "strict")
         rep.ob(rule, "the wire text is UTF-8, decoded / encoded strictly", enc_ok and err_ok and len(node.args) <= 2, func=fn, construct=node,
                detail="" if enc_ok and err_ok else "another codec or error handler on one side of the wire changes the string arguments the pool method receives")
+
+
+def r_dispatch_names(ctx: Ctx, rule: str) -> None:
+    """DISPATCH-NAMES.  The session hands the parsed arguments on as `**kwargs` whose keys are the parameter names of the pool member
+    (`func`, `args`, `num`, `group_name`, `msg`, ...).  A function of the package that receives such a `**kwargs` next to parameters of
+    its own that can be passed by keyword must not share a name with any parameter of any public pool member: the call would fail
+    with "got multiple values for argument" outside return_or_exception - no reply, the session dies.  (This is why
+    return_or_exception calls its first parameter `_function_to_execute`.)"""
+    rep = ctx.rep
+    cp, sess = anchors(ctx)
+    rep.rule(rule, "DISPATCH-NAMES: no function of the package that the session calls with the parsed arguments as **kwargs has a keyword-capable "
+                   "parameter named like a parameter of a public pool member")
+    pool_names: Set[str] = set()
+    for c in ctx.pool_classes:
+        for _name, _m, params in public_members(ctx, c):
+            pool_names |= {p for p, _a, _d in params}
+    rep.floor(rule, "parameter names of public pool members", len(pool_names), 12)
+    seen_sites = set()
+    for fn in [x for x in ctx.prog.all_functions() if x.module.name == SESSION_MOD]:
+        # (on the flow graph: the callee of `executor(command, **kwargs)` may be known only through what a helper returned)
+        for n in ctx.nodes(fn, lambda n: n.op == "call" and isinstance(n.ast, ast.Call) and any(k.arg is None for k in n.ast.keywords)):
+            cal = n.callee
+            if cal is None or cal.kind != "pkg":
+                continue
+            for t in cal.targets:
+                key = (id(n.ast), t.qual)
+                if key in seen_sites:
+                    continue
+                seen_sites.add(key)
+                a = t.node.args
+                named = [x.arg for x in a.args] + [x.arg for x in a.kwonlyargs]
+                if t.kind in ("method", "property", "setter", "class") and named and named[0] in ("self", "cls"):
+                    named = named[1:]
+                clash = sorted(set(named) & pool_names)
+                rep.ob(rule, f"{t.name} can take the parsed arguments as **kwargs without a name clash", not clash, node=n,
+                       detail="" if not clash else f"{t.name} has its own parameter(s) {clash}: a command whose member has a parameter of that name raises "
+                                                   "TypeError (multiple values) at this call, outside return_or_exception - the line gets no reply")
+    sites = len(seen_sites)
+    rep.floor(rule, "calls in session.py that forward **kwargs to a function of the package", sites, 3)
+
+
+def r_dispatch_kind(ctx: Ctx, rule: str) -> None:
+    """DISPATCH-KIND.  A command object that is a plain function is executed as a method call, one that is a property as a property
+    access: in `_parse_command` the method executor runs only where `isfunction(<command>)` held, the property executor only where
+    `isinstance(<command>, property)` held (tests read with locals and helper parameters resolved)."""
+    rep = ctx.rep
+    cp, sess = anchors(ctx)
+    rep.rule(rule, "DISPATCH-KIND: _exec_method_and_respond runs only for a command that isfunction(), _exec_property_and_respond only for one that is a property")
+    f = sess.methods.get("_parse_command")
+    if f is None:
+        raise AnalysisError("anchor: ControlSession._parse_command missing")
+    n_sites = 0
+    for exec_name, mk in (("_exec_method_and_respond", lambda c: (f"isfunction({c})", f"inspect.isfunction({c})")),
+                          ("_exec_property_and_respond", lambda c: (f"isinstance({c},property)",))):
+        for c in ctx.nodes(f, lambda n: n.op == "call" and ctx.is_call_to(n, exec_name)):
+            if not c.pred:
+                continue
+            call_ = ctx.an.partial_syn.get((id(c.ast), id(c.env)), c.ast)
+            a0 = call_.args[0] if isinstance(call_, ast.Call) and call_.args else None
+            if a0 is None:
+                rep.ob(rule, f"{exec_name} is handed the command object", None, node=c)
+                continue
+            n_sites += 1
+            texts = set()
+            for txt in {ast.unparse(a0), ctx.vals.canon_at(c.func, c.env, a0)}:
+                texts |= {t.replace(" ", "") for t in mk(txt.replace(" ", ""))}
+            tests = tests_matching(ctx, f, texts)
+            rep.ob(rule, f"{exec_name} runs only for a command of its kind", only_when(ctx, f, tests, c), node=c,
+                   detail="" if tests else f"no test reading like {sorted(texts)[0]} guards this call")
+    rep.floor(rule, "executor calls in _parse_command", n_sites, 2)
